@@ -1,6 +1,98 @@
-//! Engine B part of C08 (real binary, `$/verif/text` hook).
+//! Engine B part of C08: the same histories against the real binary; the server's text is read
+//! back with the guarded `$/verif/text` request after every notification.
+use super::c08::{decode, Case};
+use super::c18::WATCHDOG_MS;
 use crate::driver::*;
+use crate::session::{self, RunOpts};
+use serde_json::{json, Value};
+use splgen::lsp;
+use splgen::src::fnv;
 
-pub fn engine_b_parts(_ctx: &Ctx) -> Vec<Part> {
-    Vec::new()
+pub struct BinarySync;
+
+fn plan(case: &Case) -> (Vec<Value>, Vec<(i64, String)>) {
+    let uri = "file:///w/sync.spl";
+    let mut msgs = vec![session::request(1, "initialize", session::initialize_params(false)), session::notification("initialized", json!({}))];
+    msgs.push(session::notification("textDocument/didOpen", json!({ "textDocument": { "uri": uri, "languageId": "spl", "version": 1, "text": case.initial } })));
+    let mut client = case.initial.clone();
+    let mut id = 1;
+    let mut expect = Vec::new();
+    for note in &case.notes {
+        let cc: Vec<Value> = note
+            .iter()
+            .map(|c| match c.range {
+                Some((a, z)) => json!({ "range": { "start": { "line": a.line, "character": a.character }, "end": { "line": z.line, "character": z.character } }, "text": c.text }),
+                None => json!({ "text": c.text }),
+            })
+            .collect();
+        for c in note {
+            lsp::apply(&mut client, c);
+        }
+        msgs.push(session::notification("textDocument/didChange", json!({ "textDocument": { "uri": uri, "version": 2 }, "contentChanges": cc })));
+        id += 1;
+        msgs.push(session::request(id, "$/verif/text", json!({ "uri": uri })));
+        expect.push((id, client.clone()));
+    }
+    id += 1;
+    msgs.push(session::request(id, "shutdown", Value::Null));
+    msgs.push(session::notification("exit", Value::Null));
+    (msgs, expect)
+}
+
+impl Check for BinarySync {
+    fn part(&self) -> &'static str {
+        "didchange-histories-real-binary"
+    }
+    fn max_len(&self) -> usize {
+        600
+    }
+    fn shrink_iters(&self) -> u32 {
+        400
+    }
+    fn run(&self, bytes: &[u8]) -> CaseResult {
+        let case = decode(bytes);
+        let (msgs, expect) = plan(&case);
+        let mut r = CaseResult::new(fnv(bytes));
+        r.evals = expect.len() as u64;
+        let chunks = session::one_chunk(&msgs);
+        let opts = RunOpts { close_stdin: true, timeout_ms: WATCHDOG_MS, read_delay_ms: 0 };
+        let mut o = session::run(&chunks, &opts);
+        let mut tries = 1;
+        while o.timed_out && tries < 3 {
+            o = session::run(&chunks, &opts);
+            tries += 1;
+        }
+        let detail = || json!({ "initial": case.initial, "messages": msgs.iter().map(|m| m.to_string().chars().take(300).collect::<String>()).collect::<Vec<_>>(), "stderr": o.stderr.chars().take(400).collect::<String>(), "exit_code": o.exit_code });
+        if o.timed_out {
+            r.fail("watchdog", "the server does not terminate (3 attempts)", detail());
+            return r;
+        }
+        let responses = o.responses();
+        for (id, want) in &expect {
+            match responses.iter().find(|x| x["id"].as_i64() == Some(*id)) {
+                None => {
+                    r.fail("server-died", format!("no answer to the text request {} (exit status {:?})", id, o.exit_code), detail());
+                    return r;
+                }
+                Some(resp) => {
+                    let got = resp.get("result").and_then(|v| v.as_str());
+                    if got != Some(want.as_str()) {
+                        r.fail("text-diverges", format!("after notification {} the server holds {:?}, the client {:?}", id - 1, got, want), detail());
+                        return r;
+                    }
+                }
+            }
+        }
+        let all = format!("{}{}", case.initial, expect.last().map_or("", |e| e.1.as_str()));
+        r.nontrivial = all.chars().any(|c| c.len_utf16() > 1 || c == '\r') || case.labels.iter().any(|l| l.contains("overshoot"));
+        r
+    }
+    fn describe(&self, bytes: &[u8]) -> Value {
+        let case = decode(bytes);
+        json!({ "initial": case.initial, "messages": plan(&case).0.iter().map(|m| m.to_string().chars().take(300).collect::<String>()).collect::<Vec<_>>() })
+    }
+}
+
+pub fn engine_b_parts(ctx: &Ctx) -> Vec<Part> {
+    vec![run_pbt(ctx, &BinarySync, ctx.n(1_500, 40_000))]
 }
